@@ -36,7 +36,7 @@ const (
 
 var c24PxStart = time.Now()
 
-// c24PxStall: a child that does not start a new work unit for this long is considered hung.
+// c24PxStall: a child that does not complete a sequence (or claim a unit) for this long is considered hung.
 const c24PxStall = 5 * time.Minute
 
 // c24PxCollect, if set, lets a child hand extra key/values to the parent.
@@ -114,6 +114,17 @@ type c24PxChildState struct {
 	out      c24PxOut
 	fps      map[string]struct{}
 	outcomes map[string]struct{}
+	prog     string    // progress file (liveness record for the parent)
+	unit     int       // unit in progress
+	touched  time.Time // last time the progress file was rewritten
+}
+
+// alive rewrites the progress file (at most once a second): "a sequence was completed just now".
+func (s *c24PxChildState) alive() {
+	if time.Since(s.touched) > time.Second {
+		os.WriteFile(s.prog, []byte(strconv.Itoa(s.unit)), 0o666)
+		s.touched = time.Now()
+	}
 }
 
 func (s *c24PxChildState) expired() bool {
@@ -163,19 +174,21 @@ func c24PxChild(h *vx.Harness) bool {
 		return v
 	}
 	prog := filepath.Join(dir, "progress-"+id)
+	s.prog = prog
 	for !s.expired() {
 		u := claim()
 		if u >= len(s.job.Units) {
 			break
 		}
 		os.WriteFile(prog, []byte(strconv.Itoa(u)), 0o666)
+		s.unit, s.touched = u, time.Now()
 		switch s.job.Mode {
 		case "dfs":
 			s.dfsUnit(s.job.Units[u])
 		case "paths":
 			s.path(u, s.job.Units[u])
 		case "custom":
-			ev, ds, vs := c24PxCustom(s.job.Units[u], s.expired)
+			ev, ds, vs := c24PxCustom(s.job.Units[u], func() bool { s.alive(); return s.expired() })
 			s.out.Seqs += ev
 			for _, d := range ds {
 				s.fps[c24PxHash(d)] = struct{}{}
@@ -269,6 +282,7 @@ func (s *c24PxChildState) dfsUnit(prefix []int) {
 			}
 			vx.Guard(inst.Close)
 			s.out.Seqs++
+			s.alive()
 			skipAt = failAt
 		}
 		pos := depth - 1
@@ -405,7 +419,7 @@ func c24PxSpawn(c *vx.Check, h *vx.Harness, job c24PxJob, kv map[string]string) 
 							cmd.Process.Kill()
 							<-done
 						}
-						errs[i] = fmt.Errorf("stalled: no new unit started for %v", c24PxStall)
+						errs[i] = fmt.Errorf("stalled: no explored sequence completed for %v", c24PxStall)
 						return
 					}
 				}
